@@ -26,7 +26,7 @@ def units(tier):
 def replay_args(obl, inputs, res):
     import re
     e = res.get("_e")
-    d = e.defines if e else {}
+    d = e.defines if e else res.get("defines", {})
     args = [obl, "LEN=%s" % d.get('LEN', 4), "MD=%s" % d.get('MD', 2)]
     for k, v in inputs.items():
         m = re.match(r'^g\[(\d+)l?\]$', k)
